@@ -461,6 +461,12 @@ def _r345(repo, L, ia, find: Func):
         exc = rz.exc
         nm = dotted(exc.func) if isinstance(exc, ast.Call) else dotted(exc) if exc is not None else None
         if conds and conds[-1][0].startswith("not ") and conds[-1][1] is True:
+            # the documented failures: an empty scaffold and a scaffold without index.  Other guards (internal range checks
+            # that cannot fire, argument validation) may raise what they like
+            subject = conds[-1][0][4:].strip()
+            documented = subject.endswith(".rows") or subject in ("idx",) or "_scaffold_index" in subject or subject.isidentifier()
+            if not documented:
+                continue
             n4 += 1
             L.check(nm == "ValueError", "R4", f"{find.short}:{conds[-1][0]}", "raises ValueError", f"raises {nm} instead of the documented ValueError when {conds[-1][0]}", find.loc(rz))
     L.floor("R4", "guard raises in find_overlaps", n4, 2)
@@ -573,6 +579,8 @@ def _r345(repo, L, ia, find: Func):
                 want_pos = None
             kinds.setdefault(kind, []).append((r, facts))
         inst = f"{find.short}:bsearch[m{'==0' if zero else '>0'}]"
+        if any(k.startswith("other(") and "status=raise" in k for k in kinds):
+            raise AnalysisError(f"{find.short}: the binary-search body can raise ({[k for k in kinds if 'raise' in k][0]}): whether that guard can fire is not decided")
         okk = set(kinds) == {"right", "left", "found"}
         why = f"search step has outcomes {sorted(kinds)} (expected: move right, move left, found+break)"
         if okk:
